@@ -1,7 +1,7 @@
 """Per-property metadata used by tools/check.py (levels, explanations, what is not decided)."""
 
 RLIMIT = {}          # unit -> rlimit override
-DIVERGING = {'impl_RunState_rti'}    # twins that cannot fail: rti is todo!() => requires false (outside the claim)
+DIVERGING = {'impl_RunState_rti'}  # rti is todo!(): diverges by design, its twin cannot fail
 
 PROPS = {
     'C01': {
@@ -82,11 +82,31 @@ PROPS = {
                        'detach at end of input. run_command consumes exactly one command.',
         'assumptions': ['the script is finite (remaining(reader) is a natural number); Command::read_from consumes input on every round (external)'],
     },
+    'C03': {
+        'level': 'proof',
+        'kani': False,
+        'explanation': 'RunEnvironment::from_raw is proved against load_spec (accepted iff non-empty and image[0]+len <= 0x10000; words at the origin, '
+                       '0xF025 after the last word, zero elsewhere, PC=orig=image[0], R0-R6=0, R7=0xFDFF, no CC; exit 0xEE otherwise, never an index panic). '
+                       'RunEnvironment::run: proved that no instruction is fetched outside [orig,0xFE00), PC+1 cannot overflow, the loop ends only at '
+                       'PC==0xFFFF (or the debugger exit command), exception exits happen exactly when PC leaves user space; each executed step is '
+                       'execute() whose contract is step_spec (C02). trap: PUTS/PUTSP loops proved free of overflow and state-preserving.',
+        'assumptions': ['what is printed and what is consumed from stdin is I/O with no contract within reach: those clauses of C03 are NOT decided',
+                        'exit statuses are checked as the argument of the modelled exit (R7), not as process behaviour',
+                        'slice length <= isize::MAX (type invariant); clone_from_slice behaviour assumed (R13)'],
+    },
+    'C06': {
+        'level': 'proof',
+        'kani': False,
+        'explanation': 'Loader half only: from_raw accepts exactly the word images that fit (image[0]+len <= 0x10000, non-empty) and places them per '
+                       'load_spec; everything else reaches the error exit, never a crash. The byte layer (big-endian file I/O, odd-length check, '
+                       'extension dispatch in main()) has no function boundary within verifier reach and is NOT decided.',
+        'assumptions': ['byte<->word conversion and file I/O in main()/run() are outside the contracts'],
+    },
 }
 
 NOT_APPLICABLE = {
     'C08': 'file-system effect ordering and exit status of a main() match arm under injected I/O faults: no function boundary, '
            'no returnable state and no contract language for file contents with the installed verifiers (DESIGN §5 C08)',
 }
-for _p in ['C03', 'C04', 'C05', 'C06', 'C07', 'C14', 'C15', 'C17', 'C18', 'C19', 'C20']:
+for _p in ['C04', 'C05', 'C07', 'C14', 'C15', 'C17', 'C18', 'C19', 'C20']:
     NOT_APPLICABLE.setdefault(_p, 'check not built yet in this revision (planned, see DESIGN.md §5)')
